@@ -281,6 +281,43 @@ func (h *harness) runDeferred(ctx *bex.Ctx) {
 	ctx.SpaceDone(fmt.Sprintf("%d closure-calling lazy stages x %d consumers x %d contexts (later lets, another function frame, recursion, map-field closure, callback of another list method, try/catch, returned from a function, under a pushed argument, chained) x 2 sources; lazy program vs its materialise-at-once twin; a in {0,3}; optimizer on/off", len(stages), len(consumers), len(contexts)))
 }
 
+// runOperators: every binary and unary operator on every pair of operands of every sort — the typed
+// grammar below only builds well-typed programs, so what an operator does with operands it is not
+// defined on (an error, by the reference semantics) is decided here.
+func (h *harness) runOperators(ctx *bex.Ctx) {
+	ctx.Space("operator-tables")
+	v, I, op := vlang.V, vlang.I, vlang.Op
+	operands := []*vlang.Node{
+		v("a"), v("b"), v("l"), v("m"), I(0), I(5), I(-1), vlang.Fl(2.5), vlang.Bo(true), vlang.Bo(false), vlang.S("a"), vlang.S(""),
+		vlang.ListN(), vlang.ListN(I(1), I(2)), vlang.MapN(nil), vlang.MapN([]string{"k"}, I(5)), vlang.LamN([]string{"x"}, v("x")),
+		op("<", v("a"), I(1)), op("=", v("a"), v("a")), op("+", v("a"), vlang.Fl(0.5)), vlang.MethodN(v("l"), "map", vlang.LamN([]string{"e"}, op("+", v("e"), v("a")))),
+	}
+	ops := []string{"+", "-", "*", "/", "%", "<<", ">>", "=", "!=", "<", ">", "<=", ">=", "~", "&", "|"}
+	var idx int64
+	for _, o := range ops {
+		for _, x := range operands {
+			for _, y := range operands {
+				idx++
+				if !ctx.Mine(idx) || ctx.Expired() {
+					continue
+				}
+				h.check(ctx, op(o, x, y), nil)
+				// the result used, not only returned: inside a list literal and as the value of a let
+				h.check(ctx, vlang.ListN(op(o, x, y), I(7)), nil)
+			}
+		}
+	}
+	for _, x := range operands {
+		idx++
+		if !ctx.Mine(idx) || ctx.Expired() {
+			continue
+		}
+		h.check(ctx, vlang.Neg(x), nil)
+		h.check(ctx, vlang.Not(x), nil)
+	}
+	ctx.SpaceDone(fmt.Sprintf("%d binary operators x %d x %d operands of every sort (arguments, literals, non-constant bools/floats, a lazy list, maps, a closure), bare and inside a list literal; 2 unary operators; a in {0,3}; optimizer on/off", len(ops), len(operands), len(operands)))
+}
+
 func run(ctx *bex.Ctx) {
 	h := newHarness()
 	maxA, maxB := 7, 4
@@ -288,6 +325,7 @@ func run(ctx *bex.Ctx) {
 		maxA, maxB = 8, 5
 	}
 	h.runDeferred(ctx)
+	h.runOperators(ctx)
 	// tier B first (cheap, deep), then tier A
 	ctx.Space("tierB-binder-skeletons")
 	var idx int64
@@ -364,11 +402,12 @@ func main() {
 	bex.Main(&bex.Check{
 		ID:    "C01",
 		Level: "exploration",
-		Rule: "programs are enumerated exhaustively from the checks' own typed grammar (tier A, by node count) and as binder skeletons (tier B, by nesting depth), rendered to text, generated with optimizer on and off and evaluated on each argument tuple; the outcome (forced value by kind and content, or error) must equal the reference interpreter's. distinct_nontrivial = distinct source texts whose reference outcome on some tuple is a value other than 0",
+		Rule:  "programs are enumerated exhaustively from the checks' own typed grammar (tier A, by node count) and as binder skeletons (tier B, by nesting depth), rendered to text, generated with optimizer on and off and evaluated on each argument tuple; the outcome (forced value by kind and content, or error) must equal the reference interpreter's. distinct_nontrivial = distinct source texts whose reference outcome on some tuple is a value other than 0",
 		Assumptions: []string{"reference interpreter internal/refsem implements the lexically scoped, call-by-value, left-to-right semantics of the property; only ok-vs-error is compared for faults",
 			"programs never redeclare a name inside one function body, use no random, no ^ (exclusions of the property)"},
 		QuickBudget: 60e9, ThoroughBudget: 25 * 60e9,
-		Run:    run,
-		Replay: replay,
+		Run:              run,
+		Replay:           replay,
+		CrashIsViolation: true, // a worker process that dies while it executes a case on the library is a verdict on that case
 	})
 }
